@@ -53,8 +53,18 @@ def live_of(acc):
     return [[int(j) for j in range(4) if acc[v][j] >= 0] for v in range(len(acc))]
 
 
+def index_of(x):
+    """A vertex index / digit handed back by the library, as an int; a value that is not a whole number (1.25) becomes -7, which no
+    expectation contains (int() would silently round it to the expected value)."""
+    if isinstance(x, (int, numpy.integer)) and not isinstance(x, (bool, numpy.bool_)):
+        return int(x)
+    if isinstance(x, (float, numpy.floating)) and x == int(x):
+        return int(x)
+    return -7
+
+
 def acc_list(acc):
-    return [[int(x) for x in row] for row in acc]
+    return [[index_of(x) for x in row] for row in acc]
 
 
 def table(rows):
